@@ -22,6 +22,7 @@ def bounds(tier):
     q = tier == "quick"
     return {"partition": f"values 0..5, 1..{5 if q else 6} items, 1..5 bins; all partitioners, cg 4 switch sets x 3 objectives, dp x 3 objectives; ilp on values 0..3, 1..4 items, 1..3 bins",
             "partition-wide": f"all multisets of 7 items over 1..{6 if q else 10}, k=3..5, ckk/snp/rnp/cg: full output vs Sums and Partition",
+            "big": "partition values {0,1,2**24+1,2**31+1,2**32+3,2**40+5} 1..4(5) items k=1..3; packing B=2**32 sequences of 1..3(4) over {1,2**31-1,2**31,2**31+1,2**32-1,2**32}; covering B=2**32 with letters next to B/3, B/2",
             "packing": f"all sequences of 1..{4 if q else 5} items over 0..6 (B=6), 5 packers; multisets of 1..{7 if q else 8} items over 1..10 (B=20 and B=10) for bc/ffd/bfd",
             "covering": f"multisets of 1..{5 if q else 6} items over 1..13 (B=10) and 1..9 (B=6)"}
 
@@ -44,6 +45,14 @@ def tasks(tier):
     for B, N in ((10, 5 if q else 6), (6, 5 if q else 6)):
         for ch in scopes.chunk_multisets(range(1, B + 4), 1, N, 300):
             ts.append(("covering", ch, B))
+    # magnitudes beyond 2**24 / 2**31 / 2**32 (a narrower number type in any output path would show here)
+    for ch in scopes.chunk_multisets(scopes.BIG_VALUES, 1, 4 if q else 5, 15):
+        ts.append(("partition", ch, (1, 2, 3)))
+    BL = (1, 2 ** 31 - 1, 2 ** 31, 2 ** 31 + 1, 2 ** 32 - 1, 2 ** 32)
+    for ch in spaces.chunked(spaces.sequences(BL, 1, 3 if q else 4), 100):
+        ts.append(("packing-seq", ch, 2 ** 32))
+    for ch in scopes.chunk_multisets((1, 2, 2 ** 32 // 3, 2 ** 32 // 3 + 1, 2 ** 31 - 1, 2 ** 31, 2 ** 31 + 1, 2 ** 32), 1, 4 if q else 5, 100):
+        ts.append(("covering", ch, 2 ** 32))
     return ts
 
 
